@@ -88,6 +88,15 @@ func runC09(line string) string {
 			func(cond func() bool) bool { return waitFor(2*time.Second, cond) })
 		return fmt.Sprintf("serve-returned=%v port-open=%v", ret, open)
 	}
+	if sc == "drain-after-accept" {
+		// the drain request falls between Accept returning a connection and the accept loop's next step: that connection
+		// is an established one (it is kept and served), the listening socket is closed, Serve returns once it has ended
+		c09Burst++
+		served, refused, ret := proc.VerifDrainAfterAccept(uint32(freePort()), fmt.Sprintf("c09dacc%d", c09Burst),
+			func(cond func() bool) bool { return waitFor(2*time.Second, cond) })
+		return fmt.Sprintf("drain=ok established=%s new=%s serve-returned=%v", map[bool]string{true: "kept", false: "BROKEN"}[served],
+			map[bool]string{true: "refused", false: "SERVED"}[refused], ret)
+	}
 	if sc == "register-after-stop" {
 		c09Burst++
 		if proc.VerifRegisterAfterStop(fmt.Sprintf("c09stop%d", c09Burst)) {
@@ -707,7 +716,7 @@ func init() {
 					lines = append(lines, proto+" "+sc)
 				}
 			}
-			lines = append(lines, "redis stop-silent-backend 2", "tcp register-after-stop", "redis stop-halfclosed-silent", "redis drain-while-binding", "tcp drain-while-binding", "tcp drain-during-bind", "tcp stop-during-bind",
+			lines = append(lines, "redis stop-silent-backend 2", "tcp register-after-stop", "redis stop-halfclosed-silent", "redis drain-while-binding", "tcp drain-while-binding", "tcp drain-during-bind", "tcp stop-during-bind", "tcp drain-after-accept",
 				"redis stop-after-conn-loss 3", "redis stop-after-conn-loss 2", "tcp accept-emfile", "redis accept-emfile", "redis stop-during-connect", "tcp stop-stubborn-backend 2")
 			for i := 0; i < 6; i++ {
 				lines = append(lines, fmt.Sprintf("tcp limit-burst %d %d", 1+r.intn(3), 6+r.intn(20)))
